@@ -15,5 +15,5 @@ FUNCTIONS = ['lentil.wavefront.Wavefront.field#1', 'lentil.wavefront.Wavefront.f
              'lentil.extent.array_extent', 'lentil.extent.intersect', 'lentil.extent.intersection_slices',
              'lentil.extent.intersection_shift']
 LEMMAS = []
-SHARDS = {'lentil.field.insert#array': 2, 'lentil.plane.Plane.multiply#two-fields': 8, 'lentil.plane.Plane.multiply#two-segments': 8,
+SHARDS = {'lentil.field.insert#array': 2, 'lentil.plane.Plane.multiply#two-fields': 8, 'lentil.plane.Plane.multiply#two-segments': 8, 'lentil.plane.Plane.multiply#two-segments-scalars': 8,
           'lentil.plane.Plane.multiply#arrays': 2, 'lentil.plane.Plane.multiply#pupil': 2}
